@@ -294,7 +294,7 @@ VHC = os.path.join(vlib.HARNESS, "target", "debug", "vhc")
 
 RECV_CFG = """SPECIFICATION Spec
 CONSTANTS
-  ForeignPaths = {"doc", "keep"}
+  ForeignPaths = {"doc", "keep", "tool::x"}
   EMIT = TRUE
 INVARIANTS NoPanic C02_OneToOne C01_Mapping C03_Spans C08_Forward C08_Merge BigStepAgrees EmitDone
 CHECK_DEADLOCK FALSE
@@ -428,3 +428,51 @@ def c08(run, selftest=True):
 @plan("C09")
 def c09(run, selftest=True):
     return recv_plan(run, selftest, ["enum"], {"value", "leaves", "panic"}, "C09 enum receivers")
+
+
+# =====================================================================================================
+# C14 - keyed collections
+# =====================================================================================================
+
+MAPS_CFG = """SPECIFICATION Spec
+CONSTANTS
+  KeyKinds = {"string", "ident", "path"}
+  Keys <- %s
+  MaxLen = %d
+  EMIT = TRUE
+INVARIANTS C14_Verdict C14_Entries C14_Leaves EmitDone
+CHECK_DEADLOCK FALSE
+"""
+
+
+@plan("C14")
+def c14(run, selftest=True):
+    run.build()
+    q = run.tier == "quick"
+    res = run.tlc("MC_Maps", MAPS_CFG % ("MCKeys", 4 if q else 5), "maps_exh", workers=4 if q else 8)
+    run.require_tlc_ok(res, "Maps (exhaustive)")
+    r = run.vh("replay", "maps", res["out"], timeout=3000)
+    run.add_replay_result("maps", r)
+    if selftest:
+        def flip(case):
+            e = case["expect"]
+            if not e["clean"] and any(m["cls"] == "dup" for m in e["mistakes"]):
+                e["mistakes"] = [m for m in e["mistakes"] if m["cls"] != "dup"]
+                return len(e["mistakes"]) > 0
+            return False
+        selftest_replay(run, "maps", res["out"], flip, "drop the expected duplicate-key mistakes")
+    os.remove(res["out"])
+    # longer lists, wider key alphabet: random walks of the same spec
+    res = run.tlc("MC_Maps", MAPS_CFG % ("MCKeysWide", 12), "maps_sim", workers=1, simulate=400 if q else 20000, depth=14)
+    run.require_tlc_ok(res, "Maps (simulate)")
+    r = run.vh("replay", "maps", res["out"], timeout=3000)
+    run.add_replay_result("maps", r)
+    os.remove(res["out"])
+    run.exhaustive = True
+    run.assumptions = ["whether the element type accepts a value is the element type's own business (C11-C13): the spec draws good/bad, the harness renders a literal the type accepts/rejects",
+                       "the value an entry must hold is obtained by converting the same item alone with the element type"]
+    return run.finish(
+        "model_checking",
+        "all item lists up to length 4 (quick) / 5 (thorough) over {k1, k2, ::k1, a::b} x {good, bad value} and literal items, for String / Ident / Path keys, "
+        "checked by TLC against the declarative verdict, entry set and bag of mistakes, then executed on the five real instantiations x five value types "
+        "(bool, u8, String, Expr, nested map), hash vs ordered compared leaf by leaf; random walks to length 12 over six keys likewise. A case is one (key kind, item list).")
